@@ -20,6 +20,7 @@ def run(ck, rng):
     # the scanner limit is part of the accept/reject decision: rows just below, at and well above 64 KiB
     docs += malformed_stream(rng, n_bad) + long_line_docs()
     docs += [b"- a\n  - " + b"z" * n + b"\n- b\n" for n in (70000, 200000)] + [b"- r\n" + b" " * 100000]
+    docs += [spell(items, deep_spelling(items)) for items in deep_forests()]
     dcases, wcases = [], []
     for doc in docs:
         mode = rng.choice(["d 0", "d 0", "j 0", "d 1"])
